@@ -291,7 +291,7 @@ fn silence_case(case: u64, rng: &mut Rng, st: &mut Stats) {
                         return;
                     }
                     Ok(_) => {}
-                    Err(e) => st.count(&format!("readonly_followup_reopen_failed(measured):{}", &e[..e.len().min(40)])),
+                    Err(e) => st.count(&format!("readonly_followup_reopen_failed(measured):{}", vcore::clip(&e, 40))),
                 }
             }
         }
